@@ -75,6 +75,9 @@ def run(ctx: core.Ctx) -> int:
         label = json.dumps({"git-ignored-config": variant, "i1": g["i1"], "i2": g["i2"], "i3": g["i3"], "inv": sorted(g["inv"])})
         cases.append({"tid": len(cases) + 1, "p": p, "checks": ALL, "label": label, "seed": ctx.seed + len(cases), "git": True,
                       "raw_files": dict(raw, **{".gitignore": gi})})
+    for k_, c_ in enumerate(cases):
+        if k_ % 3 == 1 and not c_.get("git"):
+            c_["twins"] = True
     events = ctx.pmap(projmodel.run_project_case, cases, chunksize=16)
     for ev in events[:: max(1, n_lint // 3)][:3] + events[-1:]:
         o = ev["obs"]
